@@ -662,6 +662,16 @@ def handwritten():
     P.append((("foreach", (("try", (("match", lit("ab")),), None, (("match", lit("c")),)),), (n1,)), ("match", lit("d")), ("hook", "h")))
     P.append((("foreach", (("match", AB), ("if", ((("bin", "==", ("var", "m"), ("num", 0)), (("match", lit("c")),)),), (("match", lit("d")),))), (n1,)), ("match", lit("d")), ("hook", "h")))
     P.append((("foreach", (("match", AB), ("optional", (("match", lit("c")),)), ("loop", None, (("match", lit("a")), ("optional", (("match", lit(";")), ("break", None)))))), (n1, ("hook", "g"))), ("match", lit("d")), ("hook", "h")))
+    # an action-only conditional that changes what its own condition reads, directly after an open-ended match (must be scheduled once, or rejected)
+    eq0 = ("bin", "==", ("var", "n"), ("num", 0))
+    P.append((("match", ("re", q("a", "+"))), ("if", ((eq0, (("set", "n", ("num", 1)),)),), (("set", "n", ("num", 2)),)), ("match", lit("b")), ("hook", "h")))
+    P.append((("loop", None, (("match", ("re", q("[ab]", "+"))), ("if", ((eq0, (("set", "n", ("num", 1)),)),), (("set", "n", ("num", 0)),)), ("match", lit(";")), ("hook", "h"))),))
+    P.append((("append", "s", ("re", q("a", "+"))), ("if", ((("bin", "==", ("len", "s"), ("num", 1)), (("delete", "s"),)),), None), ("match", lit("b")), ("hook", "g")))
+    # a matched byte that is appended and then yields; on overflow the handler gets exactly that byte (also at -O3, where both sit on one transition)
+    t1 = ("try", (("append", "s", ("re", RX_ATOMS["[a-c]"])), ("yield", "Y")), ("outofspace",), (("hook", "h"), ("delete", "s"), ("match", ("re", RX_ATOMS["."])), ("match", lit("!"))))
+    t2 = ("try", (("match", AB), ("appendc", "s", ("last",)), ("yield", "Y"), ("hook", "g")), ("outofspace",), (("yield", "Z"), ("delete", "s"), ("match", lit("c"))))
+    P.append((("loop", None, (t1,)),))
+    P.append((("loop", None, (t2,)),))
     # greedy cases: priorities between action-only, empty and consuming bodies that tie on the same last byte
     m1, m2, m3 = ("set", "m", ("num", 1)), ("set", "m", ("num", 2)), ("set", "m", ("num", 3))
     g0 = len(P)
